@@ -2,7 +2,7 @@ NOTES = 'contract-based deductive verification with pyvc; see DESIGN.md'
 NOT_YET = {}
 TB = ('library models of os/shutil/posixpath/urllib/datetime (DESIGN.md section 3) are axioms validated only by bounded '
       'differential checks; solver soundness; pyvc interpreter fidelity (engine-vs-CPython differential); '
-      'argparse wiring assumed')
+      'argparse modelled for canonical argument vectors only (pyvc/argmodel.py; option VCs bounded to <= 2 option tokens)')
 claim('C10', 'deductive VCs (pyvc, z3+cvc5) over older_than / parse_deletion_date / ok_to_delete / Emptier; loop invariants',
       'every obligation generated from the current source (strict age comparison, first-DeletionDate-line parsing, TRASH_DATE clock, '
       'per-entry purge-iff-older monitor, payload-then-info, orphan rule, path_of_backup_copy precondition at its call sites) is discharged for all DAYS>=0, dates, contents and listings',
@@ -54,7 +54,7 @@ claim('C08', 'deductive VCs (pyvc): decision-table equivalence of the write-side
       PUT_TB + '; state based (TOCTOU outside the statement)', 'DESIGN.md section 4 C08')
 claim('C16', 'deductive VCs (pyvc): run_put/trash_each (bounded list length), trash_single nothrow + diagnostics, trash_file diagnostics',
       'every argument is processed once, in order, with the same options; exit 0 iff no argument failed; every failure is preceded by a stderr line naming the argument; no exception escapes for any argument',
-      PUT_TB + '; BOUNDED: argument lists of length 0..3 in the run_put VC; argparse assumed', 'DESIGN.md section 4 C16')
+      PUT_TB + '; BOUNDED: argument lists of length 0..3 in the run_put VC, <= 2 option tokens in the option VC', 'DESIGN.md section 4 C16')
 claim('C17', 'deductive VCs (pyvc): all-paths fault forking of every primitive, termination variant of the retry loop, C01 monitor on every fault path',
       'every primitive of the put attempt fails with an arbitrary errno on some path of the VC; all paths end in the C01 post state; the name-search loop has a decreasing variant; every failure reason leads to the next candidate and a diagnostic',
       PUT_TB, 'DESIGN.md section 4 C17')
